@@ -73,6 +73,7 @@ def run(rep, tier):
     rep.rule("R2", "imposed end gradient: f'==grad, f''==0 at that end")
     rep.rule("R3", "free coefficient of the polynomial/trigonometric arm vanishes at the switching equality")
     rep.rule("R4", "make1dGrid parity/midpoints/guard; dx face-to-face")
+    rep.rule("R5", "segment tables: adjoining segments share boundary value and separatrix gradient; split segments share exactly one element")
     rep.rule("R6", "nesting under (i,n,grad)->(2i,2n,grad/2)")
     rep.trust("scipy.special.erf, sici (Si odd, Ci even for real arguments); brentq returns a root of its constraint to rtol")
     site = gf.site()
@@ -162,6 +163,7 @@ def run(rep, tier):
     rep.floor("R1.arms", n_arms, 7)
     r3(prog, rep, gf)
     r4(prog, rep)
+    r5(prog, rep)
     rep.undecided("strict monotonicity between the ends for all parameters (only ends + run-time guard)")
     rep.undecided("decaying arms tend to the unperturbed profile at the switch (a limit)")
     return __doc__
@@ -216,3 +218,73 @@ def r4(prog, rep):
             ok, detail = slices.is_face_difference(mm, s.value, "psi_vals")
             rep.ob("R4", "dx.%s == psi_vals at the cell's upper x-face minus lower x-face" % loc, ok, g1.site(s), detail, key="dx/" + loc)
     rep.floor("R4.dx", n, 2)
+
+
+def r5(prog, rep):
+    from .. import tables
+    from ..tables import Leaf, Sliced
+    n_pairs = 0
+    for t in tables.all_topologies(prog):
+        if "start_at_upper_outer" in t.name:
+            continue
+        for rname, reg in t.regions.items():
+            segs = reg["segments"]
+            for k in range(len(segs) - 1):
+                a, b = t.segments[segs[k]], t.segments[segs[k + 1]]
+                key = "%s/%s/%s|%s" % (t.name, rname, segs[k], segs[k + 1])
+                n_pairs += 1
+                pa, pb = a.get("psi_vals"), b.get("psi_vals")
+                # end specification of the lower segment / start specification of the upper one
+                def end_spec(seg):
+                    pv = seg.get("psi_vals")
+                    if isinstance(pv, Sliced) and pv.lo is not None and pv.hi is None:
+                        return pv.base.attrs["spec"]["psi_end"], pv.base.attrs["spec"].get("grad_end")  # tail slice keeps the end
+                    if isinstance(pv, Sliced):
+                        return None, None  # truncated: its end is the shared element (checked below)
+                    return seg.get("psi_end"), seg.get("grad_end")
+                if isinstance(pa, Sliced) and isinstance(pb, Sliced) and pa.base == pb.base:
+                    # split of one gridded segment: [: -2k] and [-(2k+1):] share exactly one element
+                    ok = pa.lo is None and pb.hi is None and isinstance(pa.hi, Rat) and isinstance(pb.lo, Rat) and (pb.lo - (pa.hi - 1)).is_zero()
+                    nx2 = b.get("nx")
+                    ok = ok and isinstance(nx2, Rat) and (pa.hi + 2 * nx2).is_zero()
+                    rep.ob("R5", "%s, %s: split segments %s|%s share exactly one psi value and the tail holds 2*nx+1 values" % (t.name, rname, segs[k], segs[k + 1]), ok, tables.TOK,
+                           "%r | %r" % (pa, pb), key=key + "/split")
+                    continue
+                pe, ge = end_spec(a)
+                ps, gs = b.get("psi_start"), b.get("grad_start")
+                ok = isinstance(pe, Rat) and isinstance(ps, Rat) and (pe - ps).is_zero()
+                rep.ob("R5", "%s, %s: segments %s|%s share their boundary psi value" % (t.name, rname, segs[k], segs[k + 1]), ok, tables.TOK,
+                       "%s vs %s" % (pe.show(60) if isinstance(pe, Rat) else pe, ps.show(60) if isinstance(ps, Rat) else ps), key=key + "/psi")
+                ok = isinstance(ge, Rat) and isinstance(gs, Rat) and (ge - gs).is_zero()
+                rep.ob("R5", "%s, %s: segments %s|%s have the same radial spacing gradient at their common separatrix" % (t.name, rname, segs[k], segs[k + 1]), ok, tables.TOK,
+                       "%s vs %s" % (ge.show(80) if isinstance(ge, Rat) else ge, gs.show(80) if isinstance(gs, Rat) else gs), key=key + "/grad")
+    rep.floor("R5.segment-pairs", n_pairs, 20)
+    # the gradient term scales like 1/nx (needed for nesting): every candidate of min_abs is (psi difference)/nx_k
+    t = tables.topology(prog, "LDN")
+    g = t.segments["core"]["grad_end"]
+    mins = [a for a in g.all_atoms() if a.fname == "min_abs"]
+    ok = len(mins) == 1
+    if ok:
+        for arg in mins[0].args:
+            den_atoms = {a.name for a in arg.atoms() if a.name.startswith("nx")}
+            num_has_nx = any(a.name.startswith("nx") for m in arg.num for k, e in m for a in [arg.ctx.atoms[k]])
+            ok = ok and len(den_atoms) == 1 and not num_has_nx
+    rep.ob("R5", "the separatrix gradient is a minimum of terms (psi difference)/nx_k, so it halves when every nx doubles", ok, tables.TOK, g.show(200), key="grad/scaling")
+    # psi limits come from psi_* options with psinorm_* as default
+    mod = prog.module(tables.TOK)
+    f = mod.funcs.get("TokamakEquilibrium.makeRegions")
+    src = "".join(mod.text(f.node).split())
+    n = 0
+    for nm in ("core", "sol", "sol_inner", "pf_lower", "pf_upper"):
+        w = "self.psi_%s=with_default(self.user_options.psi_%s,self._psinorm_to_psi(self.user_options.psinorm_%s),)" % (nm, nm, nm)
+        n += 1
+        rep.ob("R5", "psi_%s is the psi_* option, defaulting to the psinorm_* option converted to psi" % nm, w in src, f.site(), "", key="limits/" + nm)
+    g2 = mod.funcs.get("TokamakEquilibrium._psinorm_to_psi")
+    ctx = Context()
+    ex = Extractor(ctx, mod)
+    ex.on_attr = lambda d, node, env: ctx.sym(d)
+    ex.on_subscript = lambda node, value, env: ctx.sym("".join(mod.text(node).split()))
+    ret = [r for r in walk_own(g2.node) if isinstance(r, ast.Return) and r.value is not None and not isinstance(r.value, ast.Constant)]
+    v = ex.expr(ret[-1].value, {"psinorm": ctx.sym("psinorm")})
+    ok = (v.subs({"psinorm": 0}) - ctx.sym("self.psi_axis")).is_zero() and (v.subs({"psinorm": 1}) - ctx.sym("self.psi_sep[0]")).is_zero() and v.diff("psinorm").diff("psinorm").is_zero()
+    rep.ob("R5", "psinorm -> psi is the affine map with 0 -> psi_axis and 1 -> psi_sep[0]", ok, g2.site(), v.show(), key="limits/psinorm-map")
